@@ -52,6 +52,16 @@ def run(pid, tier, seed, replay=None):
         c3 = [drv.gen_assign(rng) for _ in range(nq // 2)]
         trs = (_fix(run_tasks("flow", "run_mincost", c1 + c2, timeout=4), c1 + c2, "mincost")
                + _fix(run_tasks("flow", "run_assign", c3, timeout=10), c3, "assign"))
+        # coverage-directed bulk: many tight network-simplex instances, only executions taking rare actions are validated
+        bulk = [{"seed": rng.randint(0, 10 ** 9), "count": 3000 if tier == "quick" else 40000} for _ in range(14)]
+        cov = {}
+        for r in run_tasks("flow", "run_ns_bulk", bulk, timeout=600):
+            if not isinstance(r, dict) or "kept" not in r:
+                raise tlc.MachineryError("network-simplex bulk worker failed: " + str(r)[:300])
+            trs += r["kept"]
+            for k, v in r["cov"].items():
+                cov[k] = cov.get(k, 0) + v
+        ck.extra["network_simplex_coverage_directed_generation"] = cov
     vs = ck.validate(DIR, "FlowTrace", trs, "recorded results", timeout=3000)
     ck.classify(trs, vs, nontrivial=lambda t, v: len(t.get("arcs", [])) >= 2 or len(t.get("matrix", [])) >= 2)
     for t in trs:
